@@ -371,7 +371,7 @@ def _cb(facts, name_re, value, argres=()):
 
 def rule_collect(prog, rep):
     rep.floor("C26.COLLECT", 6)
-    fn = prog.fn(r"^%sexecution::collect_fields$" % R)
+    fn = prog.inline(prog.fn(r"^%sexecution::collect_fields$" % R), keep=r"execution::(eval_if_arg|does_fragment_type_apply|collect_fields)$")
     SEL = r"Iterator::next\(&IntoIterator::into_iter\(arg3\)\)\.as:Some\.0"
     # skip / include
     evs = [c for c in fn.live_calls() if c.name.endswith("execution::eval_if_arg")]
